@@ -1,15 +1,283 @@
 /-
-  C16 — directory listing returns each entry exactly once across any chunking/resumption.
-  (property theorems only; helper lemmas live in Fbr/Lemmas/PtDir*.lean)
+  C16 — directory listing returns each entry exactly once across any chunking / resumption.
+
+  Model: `Fbr.PtDir` — `do_readdir` of the passthrough file system with the cached-cookie fast
+  path, the `lseek64` path, the linear-scan fallback, the dot-only refetch loop and the record
+  loop; the host is a list of records `(ino, cookie, type, name)` in host order read through
+  `getdents` (longest prefix that fits); the server's `add_dirent` accounting (`Fbr.Srv.addDirent`)
+  is the callback; `PseudoFs::do_readdir`.  Byte-level `skip_to_cookie` / `last_cookie_in_buf` /
+  `only_dot_entries` work on raw buffers.  Helper lemmas: `Fbr.Lemmas.PtDir*`.
+  PROPERTY THEOREMS ONLY here (+ non-vacuity examples).
+
+  Vocabulary (defined with the lemmas): `WF d` distinct non-zero cookies, NUL-free names;
+  `Pos d c rest` — `c` is 0 or the cookie of a record and `rest` is what follows; `real` drops
+  "." / ".."; `view e` the `DirEntry` delivered for a record; `fuseLen plus n` the bytes
+  `add_dirent` accounts for a name of length `n`; `Inv st` the (fd position, cached cookie)
+  invariant; `walk` a sequential walk (each request preceded by arbitrary other requests — any
+  handles, offsets, sizes, READDIR or READDIRPLUS, opendir/releasedir — and issued on any handle of
+  the walker's set, or on none in no_opendir mode); `Adequate` every buffer of the walk can hold at
+  least the next not-yet-delivered entry.
+
+  Defects found for this property were repaired in /repo (`fix:` 3fb9b95: readdirplus kept the
+  reference of an entry whose callback failed; 990c44d: a batch of only "." / ".." produced a
+  premature empty reply); the model follows the repaired code.
 -/
-import Fbr.PtDir
+import Fbr.Lemmas.PtDirRefs
+import Fbr.Lemmas.PtDirBuf
+import Fbr.Lemmas.PtDirPseudo
 
 namespace Fbr.Thm.C16
-open Fbr.PtDir
+open Fbr.PtDir Fbr.Wire Fbr.Lemmas.PtDir
 
-/-- placeholder while the engine is brought up: a zero-size request delivers nothing -/
-theorem size_zero_delivers_nothing (H : Host) (st : St) (plus : Bool) (h off : Nat) :
-    (readReq H st plus h 0 off none).2 = .ok [] := by
-  simp [readReq, doReaddir]
+/-- **Listing complete, each entry once.**  On a host whose `lseek64` accepts every position
+    (all cookies ≤ i64::MAX — ext4, xfs, tmpfs, …): for every well-formed directory, every state
+    reachable so far (`Inv`), every sequential walk from offset 0 — any sequence of buffer sizes each
+    able to hold the next entry, plain or plus per request, on any of the walker's handles `W` or
+    without opendir, interleaved with arbitrary other requests on any handles (going back, other
+    streams, opening, closing other streams) — the concatenation of the replies is exactly the
+    directory without "." / ".." in host order, each record once, and the walk ends with an empty
+    reply, provided it is allowed at least one request more than there are entries. -/
+theorem listing_complete_once {H : Host} (wf : WF H.dir) (hq : H.eofQuirk = false)
+    (hseek : ∀ c, H.seekErr c = none) (hcookies : ∀ e ∈ H.dir, e.cookie ≤ I64_MAX)
+    (W : List Nat) (st : St) (inv : Inv st) (hW : Open st W) (steps : List Step)
+    (hsteps : ∀ s ∈ steps, (∀ op ∈ s.noise, ∀ h ∈ W, op ≠ .releasedir h) ∧ (st.noOpendir = true ∨ s.h ∈ W))
+    (hadq : Adequate H st 0 (real H.dir) steps) (hlen : (real H.dir).length < steps.length) :
+    (walk H st 0 steps).flatten = (real H.dir).map view ∧ (walk H st 0 steps).getLast? = some [] := by
+  apply walk_complete wf hq W st.noOpendir steps st 0 H.dir inv rfl hW (Or.inl ⟨rfl, rfl⟩) _ hadq hlen
+  intro s hs
+  refine ⟨(hsteps s hs).1, (hsteps s hs).2, ?_⟩
+  intro c' rest' hp hfits
+  refine ⟨hfits, Or.inl ⟨?_, hseek c'⟩⟩
+  rcases hp with ⟨h0, _⟩ | ⟨pre, e, hd, hc⟩
+  · rw [h0]; exact Nat.zero_le _
+  · rw [← hc]; exact hcookies e (by rw [hd]; simp)
+
+/-- **…also through the linear-scan fallback** (`_partial`): cookies may exceed i64::MAX and
+    `lseek64` may answer `EINVAL` for any cookie (NFS), so that requests go through the rewind-and-
+    scan path.  What is missing for full strength: the scan re-reads the directory from the start
+    with the *request's* size, so a buffer that holds the next entry but not some earlier, longer
+    record makes `getdents64` fail (`fallback_tiny_size_counterexample`); the extra hypothesis asks
+    every request buffer to hold every record of the directory (any buffer ≥ 280 bytes does). -/
+theorem listing_complete_once_fallback_partial {H : Host} (wf : WF H.dir) (hq : H.eofQuirk = false)
+    (hseek : ∀ c, H.seekErr c = none ∨ H.seekErr c = some EINVAL) (hseek0 : H.seekErr 0 = none)
+    (W : List Nat) (st : St) (inv : Inv st) (hW : Open st W) (steps : List Step)
+    (hsteps : ∀ s ∈ steps, (∀ op ∈ s.noise, ∀ h ∈ W, op ≠ .releasedir h) ∧ (st.noOpendir = true ∨ s.h ∈ W))
+    (hbig : ∀ s ∈ steps, ∀ e ∈ H.dir, reclen e ≤ s.size)
+    (hadq : Adequate H st 0 (real H.dir) steps) (hlen : (real H.dir).length < steps.length) :
+    (walk H st 0 steps).flatten = (real H.dir).map view ∧ (walk H st 0 steps).getLast? = some [] := by
+  apply walk_complete wf hq W st.noOpendir steps st 0 H.dir inv rfl hW (Or.inl ⟨rfl, rfl⟩) _ hadq hlen
+  intro s hs
+  refine ⟨(hsteps s hs).1, (hsteps s hs).2, ?_⟩
+  intro c' rest' hp hfits
+  refine ⟨hfits, ?_⟩
+  by_cases h0 : c' = 0
+  · left; rw [h0]; exact ⟨Nat.zero_le _, hseek0⟩
+  · by_cases hle : c' ≤ I64_MAX
+    · rcases hseek c' with h | h
+      · exact Or.inl ⟨hle, h⟩
+      · exact Or.inr ⟨Or.inr h, h0, hbig s hs⟩
+    · exact Or.inr ⟨Or.inl (by omega), h0, hbig s hs⟩
+
+/-- the defect of the fallback path that the `_partial` hypothesis excludes (model level; this
+    host has no cookie above i64::MAX, so it cannot be replayed here): a 60-byte name first, the
+    client resumes after it from a cookie above i64::MAX with a 32-byte buffer that holds the next
+    entry "b" — the scan's first `getdents64(32)` fails with EINVAL instead of delivering "b" -/
+theorem fallback_tiny_size_counterexample :
+    let long : HEnt := { ino := 1, cookie := 2 ^ 63 + 5, type := 8, name := List.replicate 60 97 }
+    let b : HEnt := { ino := 2, cookie := 77, type := 8, name := [98] }
+    let H : Host := { dir := [long, b] }
+    fuseLen false b.name.length ≤ 32 ∧
+    (readReq H { noOpendir := true } false 0 32 (2 ^ 63 + 5) none).2 = .error EINVAL := by
+  refine ⟨by decide, ?_⟩
+  rfl
+
+/-- **Resume from any cookie.**  Whatever the cache holds and wherever the descriptors stand
+    (`Inv` is all that is known about the state), the reply to `offset = c` — `c` being 0 or the
+    cookie of any record — is a prefix of the non-dot records right after that record, non-empty
+    if anything is left and the buffer holds the next entry; the accounted bytes fit `size`; the
+    state afterwards satisfies the invariant again. -/
+theorem resume_from_any_cookie {H : Host} (wf : WF H.dir) (hq : H.eofQuirk = false) (st : St) (inv : Inv st)
+    (plus : Bool) (h size c : Nat) (rest : Dir) (hp : Pos H.dir c rest) (h24 : 24 ≤ size)
+    (hnext : ∀ e r, real rest = e :: r → fuseLen plus e.name.length ≤ size)
+    (hh : st.noOpendir = true ∨ ∃ fd, st.fds h = some fd)
+    (hseek : c ≤ I64_MAX ∧ H.seekErr c = none) :
+    ∃ (st' : St) (p : Dir), readReq H st plus h size c none = (st', .ok (p.map view)) ∧
+      p <+: real rest ∧ (real rest ≠ [] → p ≠ []) ∧ Inv st' := by
+  obtain ⟨st', p, hreq, hr⟩ := resume_step wf hq st inv plus h size c rest hp h24 hnext hh
+    (fun hfits => ⟨hfits, Or.inl hseek⟩)
+  exact ⟨st', p, hreq, hr.isPrefix, hr.progress, hr.kept.1⟩
+
+/-- what is delivered for a record: its name (NUL-trimmed = the name), its type, its cookie as a
+    non-zero continuation offset; "." and ".." are never delivered -/
+theorem delivered_entries_faithful {d : Dir} (wf : WF d) (e : HEnt) (he : e ∈ real d) :
+    (view e).name = e.name ∧ (view e).type = e.type ∧ (view e).off = e.cookie ∧ (view e).off ≠ 0 ∧
+    e.name ≠ [46] ∧ e.name ≠ [46, 46] := by
+  have hin : e ∈ d := (List.mem_filter.mp he).1
+  have hnd : isDot e = false := by simpa using (List.mem_filter.mp he).2
+  refine ⟨view_name e (wf.nonul e hin), rfl, rfl, wf.nonzero e hin, ?_, ?_⟩
+  · intro h
+    have : isDot e = true := by simp [isDot, isDotName, nameField, reclen, HDR, h, DOT, DOTDOT, zeros, List.replicate, List.isPrefixOf]
+    rw [this] at hnd; cases hnd
+  · intro h
+    have : isDot e = true := by simp [isDot, isDotName, nameField, reclen, HDR, h, DOT, DOTDOT, zeros, List.replicate, List.isPrefixOf]
+    rw [this] at hnd; cases hnd
+
+/-- **Cache soundness (1).**  The invariant "a cached cookie is the position of the descriptor
+    it is cached for, and there is none without an open stream" holds after every history of
+    opendir / releasedir / READDIR / READDIRPLUS requests with any parameters, any injected
+    callback failure, on any host. -/
+theorem cache_sound (H : Host) (nod : Bool) (history : List Op) :
+    Inv (applyOps H { noOpendir := nod } history) := by
+  have init : Inv ({ noOpendir := nod } : St) :=
+    ⟨fun _ _ _ h _ => (by cases h), fun _ _ => rfl, fun _ _ => rfl⟩
+  exact (applyOps_keeps H [] history (fun _ _ _ h => by cases h) _ init (fun _ h => by cases h)).1
+
+/-- **Cache soundness (2).**  Hence a cache hit (`consume_cached_cookie` true: the cached cookie
+    equals the requested offset) happens only when the descriptor stands exactly after that
+    cookie. -/
+theorem cache_hit_only_at_position (st : St) (inv : Inv st) (h offset : Nat) (fd : Fd)
+    (hfd : st.fds h = some fd) (hit : (!st.noOpendir && st.cache h == some offset) = true) :
+    fd.pos = offset := by
+  simp only [Bool.and_eq_true, beq_iff_eq] at hit
+  exact inv.sound h fd offset hfd hit.2
+
+/-- **Reply within size.**  The bytes `add_dirent` accounts for the delivered entries of a reply
+    never exceed the requested size. -/
+theorem reply_within_size {H : Host} (wf : WF H.dir) (hq : H.eofQuirk = false) (st : St) (inv : Inv st)
+    (plus : Bool) (h size c : Nat) (rest : Dir) (hp : Pos H.dir c rest) (h24 : 24 ≤ size)
+    (hnext : ∀ e r, real rest = e :: r → fuseLen plus e.name.length ≤ size)
+    (hh : st.noOpendir = true ∨ ∃ fd, st.fds h = some fd)
+    (hseek : c ≤ I64_MAX ∧ H.seekErr c = none) :
+    ∃ (st' : St) (p : Dir), readReq H st plus h size c none = (st', .ok (p.map view)) ∧
+      (p.map (fun e => fuseLen plus (view e).name.length)).sum ≤ size := by
+  obtain ⟨st', p, hreq, hr⟩ := resume_step wf hq st inv plus h size c rest hp h24 hnext hh
+    (fun hfits => ⟨hfits, Or.inl hseek⟩)
+  exact ⟨st', p, hreq, hr.within⟩
+
+/-- **READDIRPLUS references = delivered entries** under the server's accounting: one lookup
+    reference per delivered record, in order; READDIR keeps none. -/
+theorem plus_refs_equal_delivered {H : Host} (wf : WF H.dir) (hq : H.eofQuirk = false) (st : St) (inv : Inv st)
+    (plus : Bool) (h size c : Nat) (rest : Dir) (hp : Pos H.dir c rest) (h24 : 24 ≤ size)
+    (hnext : ∀ e r, real rest = e :: r → fuseLen plus e.name.length ≤ size)
+    (hh : st.noOpendir = true ∨ ∃ fd, st.fds h = some fd)
+    (hseek : c ≤ I64_MAX ∧ H.seekErr c = none) :
+    ∃ (st' : St) (p : Dir), readReq H st plus h size c none = (st', .ok (p.map view)) ∧
+      st'.refs = (if plus then (p.map (·.ino)).reverse ++ st.refs else st.refs) := by
+  obtain ⟨st', p, hreq, hr⟩ := resume_step wf hq st inv plus h size c rest hp h24 hnext hh
+    (fun hfits => ⟨hfits, Or.inl hseek⟩)
+  exact ⟨st', p, hreq, hr.refs⟩
+
+/-- **…and for an arbitrary callback**: whatever `add_entry` answers for each offer — a count,
+    `Ok(0)`, or an error at any point (the repaired case) — the record loop of readdirplus ends
+    holding exactly one reference per offer the callback accepted, and the loop of readdir none. -/
+theorem plus_refs_equal_delivered_any_callback {σ : Type} (plus : Bool) (cb : Cb σ) (batch : Dir) (s : σ)
+    (refs : List Nat) :
+    ∃ accepted, (entryLoop plus (recordCb cb) batch true (s, []) refs).cb.2 = accepted ∧
+      (entryLoop plus (recordCb cb) batch true (s, []) refs).refs = (if plus then accepted ++ refs else refs) := by
+  obtain ⟨k, h1, h2⟩ := entryLoop_refs plus cb batch true s [] refs
+  exact ⟨k, by simpa using h1, h2⟩
+
+/-- **`skip_to_cookie` is correct** on every well-formed `getdents64` buffer: it leaves exactly
+    the records after the first one whose `d_off` is the requested cookie, reports whether there
+    is one, and does not panic. -/
+theorem skip_to_cookie_correct (offset : Nat) (b : Dir) (henc : ∀ e ∈ b, Enc e) :
+    skipToCookie (encodeAll b) offset =
+      match skipToCookieL b offset with
+      | some r => .found (encodeAll r)
+      | none => .notFound :=
+  skipToCookie_encoded offset b henc
+
+/-- …and on arbitrary bytes: a match always leaves a suffix of the buffer, and a record shorter
+    than the 19-byte header stops the scan (no endless loop). -/
+theorem skip_to_cookie_malformed (buf : Bytes) (offset : Nat) :
+    (∀ rest, skipToCookie buf offset = .found rest → ∃ pre, buf = pre ++ rest) ∧
+    (u16At buf 16 < HDR → skipToCookie buf offset = .notFound) :=
+  ⟨fun rest h => skipToCookie_suffix buf offset rest h, skipToCookie_short_reclen buf offset⟩
+
+/-- **`last_cookie_in_buf` is correct**: the `d_off` of the last record of a well-formed buffer
+    (`None` for an empty one); a malformed first record (shorter than the header or longer than
+    the buffer) yields `None` instead of looping or indexing out of bounds. -/
+theorem last_cookie_correct (b : Dir) (henc : ∀ e ∈ b, Enc e) (buf : Bytes) :
+    lastCookieInBuf (encodeAll b) = lastCookieL b ∧
+    (u16At buf 16 < HDR ∨ u16At buf 16 > buf.length → lastCookieInBuf buf = none) :=
+  ⟨lastCookieInBuf_encoded b henc, lastCookieInBuf_malformed buf⟩
+
+/-- `only_dot_entries` (added with fix 990c44d) reads a well-formed buffer as "all records are
+    `.` or `..`" -/
+theorem only_dot_entries_correct (b : Dir) (henc : ∀ e ∈ b, Enc e) :
+    onlyDotEntries (encodeAll b) = onlyDotsL b :=
+  onlyDotEntries_encoded b henc
+
+/-- **Pseudo directories: resume from any offset.**  The reply to `offset = k` is a prefix of
+    the children from index `k` on, the `i`-th child carrying offset `i + 1` and type DT_UNKNOWN,
+    within the requested size. -/
+theorem pseudo_resume_from_any_offset (children : List PChild) (plus : Bool) (size offset : Nat)
+    (hs : size ≠ 0) (ho : offset + 1 < 2 ^ 64) :
+    ∃ p, pseudoRead children plus size offset none = some (.ok p) ∧
+      p <+: pOffers (children.drop offset) offset ∧
+      (p.map (fun o => fuseLen plus o.name.length)).sum ≤ size := by
+  refine ⟨_, pseudoRead_spec children plus size offset hs ho, acceptedO_prefix _ _ _ _, ?_⟩
+  have := acceptedO_within size plus (pOffers (children.drop offset) offset) 0 (Nat.zero_le _)
+  omega
+
+/-- **Pseudo directories: listing complete, each child once**, for every sequence of buffers that
+    hold a child, ending with an empty reply. -/
+theorem pseudo_listing_complete_once (children : List PChild) (hlen : children.length + 1 < 2 ^ 64)
+    (steps : List (Bool × Nat))
+    (hsteps : ∀ s ∈ steps, s.2 ≠ 0 ∧ ∀ ch ∈ children, fuseLen s.1 ch.name.length ≤ s.2)
+    (hmany : children.length < steps.length) :
+    (pwalk children 0 steps).flatten = pOffers children 0 ∧ (pwalk children 0 steps).getLast? = some [] := by
+  have := pwalk_complete children hlen steps 0 (Nat.zero_le _) hsteps (by omega)
+  simpa using this
+
+/-- the panic site of `PseudoFs::do_readdir` (`offset + 1` with overflow checks on), outside the
+    resume patterns of this property: recorded as an outcome of the model -/
+theorem pseudo_offset_max_panics (children : List PChild) (plus : Bool) :
+    pseudoRead children plus 4096 (2 ^ 64 - 1) none = none := rfl
+
+/-- why every theorem above assumes `eofQuirk = false`: on a host with that ext4 defect the first
+    rewind of a descriptor whose first `getdents64` happened at end-of-directory lists nothing -/
+theorem eof_quirk_counterexample :
+    let a : HEnt := { ino := 1, cookie := I64_MAX, type := 8, name := [97] }
+    let H : Host := { dir := [a], eofQuirk := true }
+    let st0 : St := (opendir {}).1
+    let st1 := (readReq H st0 false 1 4096 I64_MAX none).1
+    (readReq H st1 false 1 4096 0 none).2 = .ok [] ∧
+    (readReq { H with eofQuirk := false } (readReq { H with eofQuirk := false } st0 false 1 4096 I64_MAX none).1
+        false 1 4096 0 none).2 = .ok [view a] := by
+  refine ⟨?_, ?_⟩ <;> rfl
+
+/-! ### non-vacuity -/
+
+/-- a directory in hash order: "." and ".." in the middle, arbitrary cookies, a hard link -/
+def exDir : Dir :=
+  [ { ino := 5, cookie := 900, type := 8, name := [120, 121] },          -- "xy"
+    { ino := 1, cookie := 17, type := 4, name := [46] },                  -- "."
+    { ino := 6, cookie := 333, type := 10, name := [46, 97] },            -- ".a"
+    { ino := 2, cookie := 2 ^ 62, type := 4, name := [46, 46] },          -- ".."
+    { ino := 5, cookie := I64_MAX, type := 8, name := List.replicate 30 98 } ]
+
+def exHost : Host := { dir := exDir }
+
+example : WF exDir :=
+  ⟨by decide, by decide, by decide⟩
+
+/-- a walk with buffers of exactly one entry each (32, 32, 56 bytes), interleaved with a
+    going-back request on the same handle and a READDIRPLUS on another one: hypotheses hold and
+    the replies are the three non-dot records, then the empty reply -/
+def exSteps : List Step :=
+  [ { noise := [.opendir], plus := false, h := 1, size := 32 },
+    { noise := [.read true 2 4096 0 none], plus := false, h := 1, size := 32 },
+    { noise := [.read false 1 32 0 none, .releasedir 2], plus := false, h := 1, size := 56 },
+    { noise := [], plus := true, h := 1, size := 4096 } ]
+
+set_option maxRecDepth 100000 in
+example : Adequate exHost (opendir {}).1 0 (real exDir) exSteps :=
+  adequate_of_bool _ _ _ _ _ (by rfl)
+
+set_option maxRecDepth 100000 in
+example : (walk exHost (opendir {}).1 0 exSteps).map (·.map (·.name)) =
+    [[[120, 121]], [[46, 97]], [List.replicate 30 98], []] := by
+  rfl
 
 end Fbr.Thm.C16
